@@ -10,7 +10,7 @@ reg("C15",
     proof_files=["Base/Prelude.v", "Model/BlockIndex.v", "Spec/C15_Spec.v",
                  "Proofs/PreludeFacts.v", "Proofs/C15_Sets.v", "Proofs/C15_Arith.v", "Proofs/C15_Provider.v",
                  "Proofs/C15_Indexer.v", "Proofs/C15_Lookup.v", "Proofs/C15_Stream.v", "Proofs/C15_Proofs.v",
-                 "Properties/C15.v", "Check/C15_Check.v"],
+                 "Properties/C15.v", "Check/C15_Check.v", "Proofs/C15_CheckSound.v"],
     rule="generated chains (8-47 blocks, first block 0/1/aligned/first-streamable, skipped numbers, occasionally a whole "
          "bundle missing) with 0-3 keys per block from a vocabulary with shared prefixes/suffixes and the empty key, or a key "
          "on every k-th block; bundle sizes 1,2,3,4,5,10; one or two indexers per store with index sizes that are multiples "
